@@ -302,13 +302,24 @@ class Interp:
                 lam = self.closure_of(e['args'][0], env)
                 if lam is not None:
                     lenv = dict(env)
+                    pids = set()
                     for prm, a in zip(lam['params'], e['args'][1:]):
                         lenv[prm['id']] = self.expr(a, env)
+                        pids.add(prm['id'])
+                    rv = None
                     try:
                         self.stmt(lam['body'], lenv)
                     except Ret as r:
-                        return r.v
-                    return None
+                        rv = r.v
+                    # by-reference captures and by-reference parameters: what the closure assigned is visible to the caller
+                    for kk in list(env):
+                        if kk in lenv and kk not in pids:
+                            env[kk] = lenv[kk]
+                    for prm, a in zip(lam['params'], e['args'][1:]):
+                        t = (prm.get('type') or '').strip()
+                        if t.endswith('&') and not t.startswith('const') and SX.is_node(SX.strip(a)) and SX.strip(a).get('k') == 'ref':
+                            self.store(a, lenv[prm['id']], env)
+                    return rv
             if op in ('++', '--') and e['args']:
                 cur = self.expr(e['args'][0], env)
                 new = (cur or 0) + (1 if op == '++' else -1)
